@@ -43,6 +43,10 @@ CLAIMED = {
    text="Table clause complete: every entry of the generated tldMap literal (≈1570) is checked by the checker's own arithmetic (key = GTLD, lower-case, delegation date parses, removal empty or parseable and not earlier) and the map is never written; the decision tables of GTLDPeriod.Valid (all orderings of when/delegation/removal), HasValidTLD, IsInTLDMap, DNSNamesExist, the TLD lint's Execute (loop unrolled twice + index-only side condition) and CheckApplies, and the generator's validateGTLDs are compared with the stated rule. Decides every domain string and instant because the code touches them only through the modelled atoms; strings.Split/ToLower and time.Parse are trusted.",
    note=TRUST+"time.Parse(2006-01-02), strings.ToLower/Split semantics are trusted, not modelled.",
    technique="constant-table census (go/ast + go/constant) with checker-side date arithmetic; decision-table extraction over go/ssa", ref="§3 C18"),
+ "C16": dict(level="other",
+   text="Threshold clauses decided for all keys: the prime table is compared with a sieve; PrimeNoSmallerThan752's decision table shows false iff some table entry divides the argument; for each of the 13 key-quality lints the decision table of Execute (big.Int BitLen/Mod/Cmp/NewInt as atoms) is evaluated with the checker's own big-integer arithmetic on both sides of every threshold (bit lengths 1023/1024/1025, 2047/2048/2049, 3071/3072/3073, non-multiples of 8, odd/even, small factors, exponents 1,2,3,4,65536,65537,…) and must agree in operator, constant, polarity and status with the stated predicate; the exponent upper bound 2^256 and the Fermat round count (i = 0..Rounds-1) are checked structurally. The Fermat clause itself (close primes are found; reported factors multiply back) is a numerical loop and is NOT decided.",
+   note=TRUST+"math/big is trusted. The Fermat search's arithmetic is outside the claim (seeded change C16-B, a wrong quadratic-residue pre-filter, is not detected).",
+   technique="constant-table census with checker-side sieve; decision-table extraction over go/ssa evaluated at boundary points with big-integer arithmetic", ref="§3 C16"),
 }
 
 NOT_YET = "check not built yet in this session (see DESIGN.md §3 for the planned static rule)"
